@@ -166,7 +166,13 @@ def apply_delta(p0, p1, mods, root, plain, mode):
         return
     a = mods["a"]
     for v in vars_:
-        setattr(a, v, p1["vars"][v])
+        old, new = getattr(a, v, None), p1["vars"][v]
+        if mode == "mutate" and type(old) is type(new) and isinstance(old, (list, dict)):
+            # same object, new contents
+            old.clear()
+            old.extend(new) if isinstance(old, list) else old.update(new)
+        else:
+            setattr(a, v, new)
     for c in classes:
         _exec_into(a, progen.render_class(c, p1["classes"][c]), root, plain)
         for bname, target in p1.get("bindings", {}).items():
